@@ -30,9 +30,6 @@ Inductive case :=
 | CPmap (P : params) (sched : list nat) (xs : list (list bool)) (results : list (list Z))
 | COrder (w : nat) (delays : list Z).
 
-Definition is_perm_of_seq (l : list nat) (n : nat) : bool :=
-  Nat.eqb (length l) n && forallb (fun i => existsb (Nat.eqb i) l) (seq 0 n).
-
 Definition check (c : case) : bool :=
   match c with
   | CRun P pop0 hofmax ngen scheds obs =>
